@@ -546,9 +546,11 @@ func (g *G) genDidGenesis(cdc codec.JSONCodec, keys []world.DIDKey, consistent .
 		dids = append(dids, k.DID())
 	}
 	n := 2 + g.intn("gen-dids", 5)
+	big := false
 	if g.chance("gen-big-registry", 30) {
+		big = true
 		// more entries than any page or batch size an export might use
-		n = 33 + g.intn("gen-big-n", 40)
+		n = 33 + g.intn("gen-big-n", 110) // up to 142: beyond batch sizes of 32, 64, 100 and 128
 		for i := 0; i < n+8; i++ {
 			h := sha256.Sum256([]byte(fmt.Sprintf("generated-did-%d", i)))
 			dids = append(dids, "did:panacea:"+base58.Encode(h[:]))
@@ -556,6 +558,9 @@ func (g *G) genDidGenesis(cdc codec.JSONCodec, keys []world.DIDKey, consistent .
 	}
 	for i := 0; i < n; i++ {
 		key := pick(g, "gen-did-key", dids)
+		if big {
+			key = dids[len(dids)-1-i] // every generated identifier once: n distinct entries
+		}
 		about := key
 		if len(consistent) == 0 && g.chance("gen-doc-about-other", 45) {
 			about = pick(g, "gen-doc-about", dids)
